@@ -620,6 +620,16 @@ def build_scenarios(ck):
         for end in ("abort", "commit"):
             scs.append(gen_abort_reenqueued_scenario(rng, sid, ea, code=rng.choice([6, 3, 19]), end=end))
             sid += 1
+    # (e) older broker releases that support transactions (0.11 .. 2.3: other versions of Produce, the five
+    #     transactional APIs, FindCoordinator, Metadata)
+    from simkit import profiles
+    for _ in range(ck.n(16, 200)):
+        sc = gen_scenario(rng, sid) if rng.random() < 0.7 else gen_parked_scenario(rng, sid, rng.choice(PARKED_END_AFTER))
+        name = rng.choice(profiles.TRANSACTIONAL)
+        sc["api_ranges"] = profiles.api_ranges(name)
+        sc["family"] = "old-broker:" + name
+        scs.append(sc)
+        sid += 1
     return scs, sid, rng
 
 
